@@ -213,8 +213,11 @@ func init() {
 		"2-0w-2": {{2, false}, {0, true}, {2, false}},
 		"2-1w":   {{2, false}, {1, true}},
 		"3-1-2w": {{3, false}, {1, false}, {2, true}},
+		// a negative count means zero workers
+		"2-neg1w": {{2, false}, {-1, true}},
+		"1-neg5-1w": {{1, false}, {-5, false}, {1, true}},
 	}
-	for _, name := range []string{"2-1w", "1-3", "2-0w-2", "3-2-1w", "3-1-2w"} {
+	for _, name := range []string{"2-1w", "1-3", "2-0w-2", "3-2-1w", "3-1-2w", "2-neg1w", "1-neg5-1w"} {
 		steps := resize[name]
 		for _, n := range []int{0, 1} {
 			name, n := name, n
@@ -230,6 +233,9 @@ func init() {
 						s = &c09State{tp: pool.NewThreadPool(), runs: make([]int, n), stage: "start"}
 						var fin vsched.WaitGroup
 						last := steps[len(steps)-1].count
+						if last < 0 {
+							last = 0
+						}
 						s.tp.SetWorkerCount(steps[0].count, false)
 						if n > 0 {
 							fin.Add(1)
@@ -245,7 +251,11 @@ func init() {
 							s.stage = fmt.Sprintf("resize%d", i+1)
 							s.tp.SetWorkerCount(st.count, st.wait)
 							if st.wait {
-								if c := s.tp.WorkerCount(); c != st.count {
+								want := st.count
+								if want < 0 {
+									want = 0
+								}
+								if c := s.tp.WorkerCount(); c != want {
 									s.note("waiting SetWorkerCount(%d) returned with %d workers", st.count, c)
 								}
 							}
@@ -268,7 +278,7 @@ func init() {
 						vsched.End()
 					}
 					return body, func(e *vsched.Exec) (string, *vsched.Violation) {
-						if last := steps[len(steps)-1].count; last == 0 {
+						if last := steps[len(steps)-1].count; last <= 0 {
 							// tasks need not run with zero workers
 							for i := range s.runs {
 								if s.runs[i] == 0 {
@@ -280,5 +290,38 @@ func init() {
 					}
 				}})
 		}
+	}
+}
+
+// (e) the queue-is-filling-up notification must not disturb task execution
+func init() {
+	for _, w := range []int{1, 2} {
+		w := w
+		register(&Scenario{Prop: "C09", Name: fmt.Sprintf("toomany-w%d", w), Quick: 1, Thor: 2,
+			Desc: fmt.Sprintf("%d worker(s), TooManyThreshold 1 with a counting callback, two bursts of 2 tasks: every task runs exactly once, the callback fires at least once per burst that fills the queue and never more often than tasks were added", w),
+			Make: func() (func(), func(e *vsched.Exec) (string, *vsched.Violation)) {
+				var s *c09State
+				calls := 0
+				body := func() {
+					calls = 0
+					s = &c09State{tp: pool.NewThreadPool(), runs: make([]int, 4), stage: "start"}
+					s.tp.TooManyThreshold = 1
+					s.tp.TooManyCallback = func() { calls++ }
+					s.tp.SetWorkerCount(w, false)
+					for b := 0; b < 2; b++ {
+						s.stage = fmt.Sprintf("burst%d", b)
+						s.wg.Add(2)
+						s.tp.AddTask(&c09Task{s, 2 * b, -1})
+						s.tp.AddTask(&c09Task{s, 2*b + 1, -1})
+						s.wg.Wait()
+					}
+					if calls < 1 || calls > 4 {
+						s.note("queue-filling callback fired %d times for 4 tasks with threshold 1", calls)
+					}
+					s.stage = "done"
+					vsched.End()
+				}
+				return body, c09Check(&s, 4)
+			}})
 	}
 }
